@@ -17,7 +17,8 @@ def isa_hyp(idx, fi, test, positive=True):
     if isinstance(test, ast.Call) and isinstance(test.func, ast.Attribute) and test.func.attr == "isa" and test.args and positive:
         r = idx.resolve_expr(fi.module, test.args[0], fi)
         who = test.func.value
-        s = sym(who.id) if isinstance(who, ast.Name) else None
+        # `A.isa(..)` and `A.A.isa(..)` (the wrapped operator of a Transpose / Adjoint, named as in KIND_DEF)
+        s = sym(who.id) if isinstance(who, ast.Name) else (sym(ast.unparse(who)) if isinstance(who, ast.Attribute) and df.attr_chain(who)[0] is not None else None)
         if r is not None and r.kind == "class" and s is not None:
             if r.val.name in HERM:
                 out.add(("herm", s))
